@@ -35,10 +35,10 @@ def result_ref(reason, name="r", schema_error=T.Const(None), passed=T.Bool):
                  message=T.Any, failure_cases=T.Any, schema_error=schema_error, original_exc=T.Any)
 
 
-def install_run_check(I, raise_classes):
+def install_run_check(I, raise_classes, run_check_target=None):
     """run_check is under its own contract (C19 RunCheck): here it returns an arbitrary result or propagates an
     arbitrary exception of the user's check function."""
-    rc = resolve_target(RUN_CHECK)
+    rc = resolve_target(run_check_target or RUN_CHECK)
 
     def model(I, self_obj, check_obj, schema, check, check_index, *args):
         p = cur()
@@ -64,14 +64,14 @@ def results_havoc(name="check_results"):
     return hv
 
 
-def _run_checks_contract(target, raise_classes, escaping=(), name="RunChecks", schema_error_reason=SchemaErrorReason.CHECK_ERROR):
+def _run_checks_contract(target, raise_classes, escaping=(), name="RunChecks", schema_error_reason=SchemaErrorReason.CHECK_ERROR, run_check_target=None):
     class RC(Contract):
         params = dict(self=T.Ref(None), check_obj=T.Any, schema=T.Ref(None, checks=T.ListOf(T.Ref(None)), name=T.Opt(T.Label)))
         raises = tuple(escaping)
 
         def setup(self, I):
             PL.install(I)
-            install_run_check(I, raise_classes)
+            install_run_check(I, raise_classes, run_check_target)
             traceback_mod = __import__("traceback")
             I.models[id(traceback_mod.format_exc)] = lambda I: __import__("pyvc.values", fromlist=["Fmt"]).Fmt(["<traceback>"])
 
@@ -289,4 +289,11 @@ class ArrayCollectPrefix(ArrayCollect):
         return out
 
 
-CONTRACTS = [ArrayRunChecks, ColumnRunChecks, ContainerRunChecks, ArrayCollect, ArrayCollectPrefix]
+# polars twins: a user check that raises becomes a failed CHECK_ERROR result at its own position, for every position
+PL_RUN_CHECK = "pandera.backends.polars.base:PolarsSchemaBackend.run_check"
+PolarsColumnRunChecks = _run_checks_contract("pandera.backends.polars.components:ColumnBackend.run_checks.<unwrap>", [OtherException, SchemaError, SchemaDefinitionError],
+                                             name="PolarsColumnRunChecks", run_check_target=PL_RUN_CHECK)
+PolarsContainerRunChecks = _run_checks_contract("pandera.backends.polars.container:DataFrameSchemaBackend.run_checks.<unwrap>", [OtherException, SchemaError, SchemaDefinitionError],
+                                                escaping=(SchemaDefinitionError,), name="PolarsContainerRunChecks", run_check_target=PL_RUN_CHECK)
+
+CONTRACTS = [ArrayRunChecks, ColumnRunChecks, ContainerRunChecks, ArrayCollect, ArrayCollectPrefix, PolarsColumnRunChecks, PolarsContainerRunChecks]
